@@ -749,10 +749,11 @@ do_sig(char * l)
 	free(sha); free(date); free(auth); free(q);
 }
 
+static const char * g_tracepath;
 static void
 do_keyfile(char * l)
 {
-	char hex[1 << 14], fname[] = "/tmp/verif_ck_XXXXXX";
+	char hex[1 << 14], fname[4200];		/* (the key file lives next to the trace, not in /tmp) */
 	size_t len;
 	char * id = NULL, * secret = NULL;
 	const char * p;
@@ -769,6 +770,7 @@ do_keyfile(char * l)
 		if (cur_secret == NULL) { cur_secret = p + 18; cur_secret_len = n; }
 	}
 	scan_all_frees = 1;
+	snprintf(fname, sizeof(fname), "%.4000s.kfXXXXXX", g_tracepath ? g_tracepath : "/tmp/verif_ck");
 	if ((fd = mkstemp(fname)) < 0) return;
 	if (len && write(fd, msg, len) != (ssize_t)len) { close(fd); unlink(fname); return; }
 	close(fd);
@@ -942,6 +944,7 @@ main(int argc, char ** argv)
 	if (argc < 3) { fprintf(stderr, "usage: drv_crypto programs trace\n"); return (3); }
 	CRYPTO_set_mem_functions(ossl_malloc, ossl_realloc, ossl_free);
 	if ((f = fopen(argv[1], "r")) == NULL) { perror(argv[1]); return (3); }
+	g_tracepath = argv[2];
 	vt_open(argv[2]);
 	self_trace = argv[2];
 	aw_free_hook = free_hook;
